@@ -304,6 +304,17 @@ def fam_dt(b):
     yield (d2, '(snd (mk l i))', 'Int')
     yield (d2, '(fst (mk l i))', 'L')
     yield (d2, '(hd (tl (cons i (cons 2 nil))))', 'Int')
+    # a selector applied to a term built with *another* constructor: its
+    # value is unspecified, it is not the argument
+    d3 = ('(declare-datatype T ((mk-i (geti Int)) (mk-b (getb Bool)) '
+          '(mk-p (fstp Int) (sndp Int))))(declare-const t T)'
+          '(declare-const i Int)(declare-const j Int)')
+    yield (d3, '(geti (mk-b true))', 'Int')
+    yield (d3, '(getb (mk-i i))', 'Bool')
+    yield (d3, '(geti (mk-p i j))', 'Int')
+    yield (d3, '(sndp (mk-i i))', 'Int')
+    yield (d3, '(sndp (mk-p i j))', 'Int')
+    yield (d3, '(fstp (mk-p (geti (mk-i j)) i))', 'Int')
 
 
 FAMILIES = {
